@@ -15,7 +15,7 @@ from bfsa.terms import C, NONE, Term, cval, is_const, mk, show
 
 from bfsa.exprs import sbytes as sbytes_
 from rules import adapter
-from rules.bf3 import _self_attr, find_guards
+from rules.bf3 import _self_attr, accepted_only_when_not, find_guards
 from rules import stackrt
 
 LEVEL = "other"
@@ -140,6 +140,9 @@ def frame_parser_rules(prog, chk, pid):
 
     gs = find_guards(res.events, crc_pred)
     gs = [g for g in gs if all(dominates(g, r) for r in rets)]
+    if not gs and rets and all(accepted_only_when_not(r, crc_pred) for r in rets):
+        # `if crc8404B(payload) == crc: return payload` followed by the raise
+        gs = [r for r in rets]
     chk.require(bool(gs), P("crc-guard"), fi.qualname, "crc8404B(payload) != stored crc -> raise", gs[0].where if gs else where, "CRC of the payload read is compared with the stored CRC; mismatch (e.g. a frame made under another key) raises", "no dominating guard rejects a CRC mismatch")
     okr = bool(rets) and all(_is_payload(r.d["value"], pay) for r in rets)
     chk.require(okr, P("returns-payload"), fi.qualname, "return payload", where, "the value returned is exactly the payload field read", "returned value is %s" % (show(rets[0].d["value"], 4) if rets else None))
